@@ -5,7 +5,6 @@ from __future__ import annotations
 import asyncio
 import os
 import shutil
-import struct
 import tempfile
 
 from hypothesis import strategies as st
@@ -158,6 +157,7 @@ def case_strategy(draw, focus=None):
     peers = []
     mid = focus == 'mid'
     reoffer = focus == 'reoffer'
+    aim0 = bool(focus)        # the first call goes to a transfer of the focused peer
     if mid:
         focus = None
     if reoffer:
@@ -192,7 +192,7 @@ def case_strategy(draw, focus=None):
     nops = draw(st.sampled_from([1, 1, 1, 2]))
     used = set()
     for _ in range(nops):
-        pi = 0 if (focus and not ops) else draw(st.integers(0, npeers - 1))
+        pi = 0 if (aim0 and not ops) else draw(st.integers(0, npeers - 1))
         xi = draw(st.integers(0, len(peers[pi]['xfers']) - 1))
         if (pi, xi) in used:
             continue
@@ -228,7 +228,8 @@ def case_strategy(draw, focus=None):
         trig.append({'at': at, 'kind': kind, 'user': user, 'status': status})
     limits = [1, 2, 4] if mid else ([0] if reoffer else [0, 0, 1, 4])
     return {'mode': mode, 'up_kbps': draw(st.sampled_from(limits)), 'down_kbps': draw(st.sampled_from(limits)),
-            'exec_ms': draw(st.sampled_from([1, 3, 5] if reoffer else [0, 0, 1, 3])), 'peers': peers, 'triggers': trig, 'ops': ops}
+            'exec_ms': draw(st.sampled_from([1, 3, 5] if reoffer else [0, 0, 1, 3])), 'peers': peers,
+            'triggers': trig, 'ops': ops}
 
 
 # ---------------------------------------------------------------------------
@@ -402,7 +403,7 @@ def _run(c, res, tmp):
     peers = c['peers']
     names = ['u%d' % i for i in range(len(peers))]
     OTHER = 'zed'
-    out = {'ops': [], 'polled_dups': [], 'errors': []}
+    out = {'ops': [], 'polled_dups': []}
     has_d = any(p['role'] == 'D' for p in peers)
 
     share = os.path.join(tmp, 'share', 'music')
@@ -566,8 +567,8 @@ def _run(c, res, tmp):
             rec['pre'] = _snapshot(t)
             pend = reg.pending_for(t)
             rec['pending'] = sorted({e['routine'] for e in pend})
-            rec['orphans'] = sorted({e['routine'] for e in pend
-                                     if e['task'] is not t._remotely_queue_task and e['task'] is not t._transfer_task})
+            handles = (getattr(t, '_remotely_queue_task', None), getattr(t, '_transfer_task', None))
+            rec['orphans'] = sorted({e['routine'] for e in pend if e['task'] not in handles})
             rec['overlap'] = max([sum(1 for ct in cycles if ct > e['created'] + EPS) for e in pend] or [0])
             rec['had_dups'] = sorted({r for _, r, tr, _ in reg.dups if tr is t})
             rec['t_call'] = loop.time()
@@ -742,7 +743,7 @@ def _judge(c, out, res, names, loop_errors):
             moved = any(i == tid and a - 0.01 < t <= b for t, i, _, _ in out['transitions'])
             off = any(a - 0.01 < t <= b for t in out['offline'].get(user, []))
             if not moved and not off:
-                root = f'C06/duplicate-negotiation:queue-remotely>' if (tid, 'queue-remotely') in out['dup_ids'] else 'C06/'
+                root = 'C06/duplicate-negotiation:queue-remotely>' if (tid, 'queue-remotely') in out['dup_ids'] else 'C06/'
                 res.violate(root + 'duplicate-frames:PeerTransferQueue',
                             f'{user} {fname}: PeerTransferQueue received at {rel(a)} and {rel(b)} without a state '
                             f'transition or offline status in between; mode={c["mode"]}')
@@ -812,8 +813,9 @@ def _judge(c, out, res, names, loop_errors):
         fin = out['final'][tid]
         for f in FIELDS:
             if fin[f] != rec['snap'][f]:
-                if f == 'remotely_queued' and fin[f] is False and any(t >= T - EPS for t in out['offline'].get(user, [])):
-                    continue
+                if f == 'remotely_queued' and fin[f] is False and \
+                        any(t + LAT >= T - EPS for t in out['offline'].get(user, [])):
+                    continue        # an OFFLINE status of the user handled after T legitimately resets the flag
                 res.violate(f'{root}field-changed-after-return:{f}',
                             f'{f}: {rec["snap"][f]!r} -> {fin[f]!r}; {ctx}')
         # expected effect of the call itself
